@@ -140,11 +140,16 @@ class Check:
     def spec_dir(self, name, extra_files=None):
         """flat copy of every .tla/.cfg of spec/, spec/mc, spec/trace into a scratch dir"""
         d = self.sub(name)
-        for subd in ("spec", "spec/mc", "spec/trace"):
-            p = os.path.join(VERIF, subd)
-            for f in os.listdir(p):
-                if f.endswith(".tla") or f.endswith(".cfg"):
-                    shutil.copy(os.path.join(p, f), os.path.join(d, f))
+        snap = os.path.join(self.scratch, "_spec_snapshot")
+        if not os.path.isdir(snap):          # one snapshot per run: every TLC job of this run sees the same sources
+            os.makedirs(snap)
+            for subd in ("spec", "spec/mc", "spec/trace"):
+                p = os.path.join(VERIF, subd)
+                for f in os.listdir(p):
+                    if f.endswith(".tla") or f.endswith(".cfg"):
+                        shutil.copy(os.path.join(p, f), os.path.join(snap, f))
+        for f in os.listdir(snap):
+            shutil.copy(os.path.join(snap, f), os.path.join(d, f))
         for src, dst in (extra_files or {}).items():
             shutil.copy(src, os.path.join(d, dst))
         return d
